@@ -114,11 +114,8 @@ theorem svgElem_outline (p : Paint) (hp : p.has = true) (r : PathRef) :
   · subst hb; simp [svgElem, vg0, Paint.has]
   · simp [svgElem, vg0, svgApply, hb, hp]
 
-/-- SVG: one `RenderPath` call read with the SVG initial values paints the reference, unless the
-explicit outline is written with `fill-rule="evenodd"` (recorded defect) -/
-theorem svgDraw_refines (d : Draw ν) (hc : d.cap ≤ 2)
-    (hx : ¬ (d.hasStroke N d.join.svgOk = true ∧ d.native d.join.svgOk = false ∧ d.evenOdd = true)) :
-    svgRun N (svgDraw N d) = svgRef N d := by
+/-- SVG: one `RenderPath` call read with the SVG initial values paints the reference, for every style and view -/
+theorem svgDraw_refines (d : Draw ν) (hc : d.cap ≤ 2) : svgRun N (svgDraw N d) = svgRef N d := by
   unfold svgRun svgDraw svgRef
   by_cases hs : d.hasStroke N d.join.svgOk = true
   · have hsn : d.stroke.has = true := by simp [Draw.hasStroke] at hs; exact hs.1
@@ -126,20 +123,16 @@ theorem svgDraw_refines (d : Draw ν) (hc : d.cap ≤ 2)
     · have hj : d.join.svgOk = true := by simp [Draw.native] at hn; exact hn.1
       have hs' : d.hasStroke N true = true := hj ▸ hs
       have hn' : d.native true = true := hj ▸ hn
-      simp only [hs, hn, hj, hs', hn', Bool.not_true, Bool.false_eq_true, if_false, if_true, Bool.and_false,
+      simp only [hj, hs', hn', Bool.not_true, Bool.false_eq_true, if_false, if_true, Bool.and_false,
         List.append_nil, List.flatMap_cons, List.flatMap_nil, svgElem, List.foldl_append, fillItems_apply]
       rw [strokeItems_apply d hj hc _ rfl rfl rfl rfl rfl rfl]
       by_cases hf : d.hasFill = true
       · have : d.fill.has = true := hf
         simp [hf, this, hsn, vg0, svgJoinNat_of, svgLimit_keep]
       · simp [hf, hsn, vg0, svgJoinNat_of, svgLimit_keep]
-    · have he : d.evenOdd = false := by
-        cases h : d.evenOdd
-        · rfl
-        · exact absurd ⟨hs, by simpa using hn, h⟩ hx
-      simp only [hs, hn, Bool.not_true, Bool.not_false, Bool.false_eq_true, if_false, if_true, Bool.and_true,
-        List.append_nil, List.cons_append, List.nil_append, List.flatMap_cons, List.flatMap_nil, he]
-      rw [svgElem_fillOnly, svgElem_outline d.stroke hsn, he]
+    · simp only [hs, hn, Bool.not_true, Bool.not_false, Bool.false_eq_true, if_false, if_true, Bool.and_true,
+        List.append_nil, List.cons_append, List.nil_append, List.flatMap_cons, List.flatMap_nil]
+      rw [svgElem_fillOnly, svgElem_outline d.stroke hsn]
   · simp only [hs, Bool.not_false, Bool.false_eq_true, if_false, if_true, Bool.false_and, List.append_nil,
       List.flatMap_cons, List.flatMap_nil]
     rw [svgElem_fillOnly]
